@@ -109,7 +109,8 @@ Calls(s) ==
         nr    == Len(s.results)
         \* the unremarkable behaviour: values 1, a nil error
         plain == [k |-> "ret", r |-> IF decl.err /\ nr > 0 THEN Const(nr - 1, 1) \o <<0>> ELSE Const(nr, 1)]
-        rets  == {[k |-> "ret", r |-> r] : r \in [1..nr -> 0..2]}
+        rets  == {[k |-> "ret", r |-> r] :
+                     r \in {q \in [1..nr -> 0..Len(ErrTokClass)] : \A j \in 1..nr : q[j] \in TokDom(s.results[j])}}
         echos == IF NValues(decl) = 1 /\ nr >= 1
                  THEN {[k |-> "echo", r |-> <<p>> \o t] :
                           p \in {q \in 1..ar : s.params[q] = s.results[1]}, t \in [1..(nr - 1) -> 0..1]}
@@ -145,10 +146,15 @@ ModelOK ==
               /\ Len(v.call.args) # Len(decl.inputs) => o = FnOutcome("error", 0, FALSE)
               /\ (acc = "yes" /\ Len(v.call.args) = Len(decl.inputs) /\ WellTyped(Attr, decl, v.call)
                     /\ v.call.beh.k # "panic") =>
-                   LET failed == decl.err /\ ResultTok(v.call, Len(sig.results)) # 0 IN
-                   /\ failed => o = FnOutcome("error", 0, TRUE)
-                   /\ (~failed /\ HasValue(decl)) => o = FnOutcome("value", ResultTok(v.call, 1), FALSE)
-                   /\ (~failed /\ ~HasValue(decl)) => o = FnOutcome("void", 0, FALSE)
+                   LET et == IF decl.err THEN ResultTok(v.call, Len(sig.results)) ELSE 0
+                       typednil == et = TypedNilTok
+                       failed == et # 0 /\ ~typednil IN
+                   \* whatever the handler's error is or wraps, it is reported as the function's,
+                   \* with that very value as its source
+                   /\ failed => o = FnOutcome("error", et, TRUE)
+                   /\ typednil => o.kind = "open_nilerr"
+                   /\ (et = 0 /\ HasValue(decl)) => o = FnOutcome("value", ResultTok(v.call, 1), FALSE)
+                   /\ (et = 0 /\ ~HasValue(decl)) => o = FnOutcome("void", 0, FALSE)
 
 Expected ==
     LET sig == Sig(v)
@@ -163,6 +169,7 @@ Export ==
     IF v.op = "bind"
     THEN Emit([op |-> "bind",
                native |-> {[schema |-> s, type |-> Native[s]] : s \in SchemaIds},
+               errtokens |-> ErrTokClass,
                types |-> {[id |-> t, iface |-> Attr[t].iface, nilable |-> Attr[t].nilable, err |-> Attr[t].err] : t \in TypeIds}])
     ELSE Emit([op |-> v.op, dyn |-> v.dyn, params |-> v.params, results |-> v.results,
                inputs |-> v.inputs, natives |-> NatSeq(v.inputs), out |-> v.out, err |-> v.err,
